@@ -251,6 +251,12 @@ Proof.
   - rewrite (H2 eq_refl). reflexivity.
 Qed.
 
+Lemma ns_eqb_true : forall a b, ns_eqb a b = true -> a = b.
+Proof.
+  induction a as [| x a IH]; destruct b as [| y b]; cbn; try discriminate; auto.
+  intro H. apply andb_true_iff in H. destruct H as [E H]. apply N.eqb_eq in E. subst. f_equal. now apply IH.
+Qed.
+
 (* "…and nothing else": a call can only be written with at most one alias prefix, so whatever it binds to
    is an entry with at most one prefix — the names a module itself imported (prefix a::c::…) are unreachable *)
 Lemma lookup_prefix_bound : forall fs q n ar d, lookup_f fs q n ar = Some d ->
@@ -263,7 +269,5 @@ Proof.
   unfold key_match in Hk. apply andb_true_iff in Hk. destruct Hk as [Hk H3].
   apply andb_true_iff in Hk. destruct Hk as [H1 H2].
   apply N.eqb_eq in H2. apply N.eqb_eq in H3. repeat split; auto.
-  clear -H1. revert H1. generalize (qlist q) (fq e).
-  induction l as [| x l IH]; destruct l0 as [| y l0]; cbn; try discriminate; auto.
-  intro H. apply andb_true_iff in H. destruct H as [E H]. apply N.eqb_eq in E. subst. f_equal. now apply IH.
+  symmetry. now apply ns_eqb_true.
 Qed.
